@@ -25,7 +25,8 @@ Grammar (everything else is refused)
                == != < <= > >= on ints, not / and / or on bools, a if c else b (pure scalar branches),
                isinstance(v, dict), l[i] (IndexError modelled),
                entry.get(k[, None]) on a stored record, [e for x in <list | self>], tuple(e for x in <list>),
-               {k: v for k, v in d.items() if c}, {ke: ve for k, v in d.items()}, dict() / {}, d.copy(), d.items(),
+               {k: v for k, v in d.items() if c}, {ke: ve for k, v in d.items()}, {ke: ve for k, s in self.items()}
+               (MultiStatistics; = the loop acc[ke] = ve), dict() / {}, d.copy(), d.items(),
                list(e), sorted(e, reverse=True), reversed(e), range(*key.indices(len(self))) (key narrowed to a slice),
                super(..).pop(i) / list.pop(self, i), self.pop(i), self.__str__(i), partial(function, *args, **kargs),
                f(values) for a local f bound to a registered function, self.key(e), s.compile(data)
@@ -360,6 +361,26 @@ class FnTr(object):
         if len(e.generators) != 1 or e.generators[0].is_async or len(e.generators[0].ifs) > 1:
             refuse(e, "dict comprehension with several clauses / conditions")
         g = e.generators[0]
+        if self.cls == "MultiStatistics" and self.sub is None and is_method(g.iter, "items", 0) and is_self(g.iter.func.value) \
+                and not g.ifs and isinstance(g.target, ast.Tuple) and len(g.target.elts) == 2 \
+                and all(isinstance(x, ast.Name) for x in g.target.elts):
+            # {ke: ve for k, s in self.items()}  =  acc = {}; for k, s in self.items(): acc[ke] = ve
+            kn, var = g.target.elts[0].id, g.target.elts[1].id
+            env2 = dict(env)
+            env2[kn] = "name"
+            env2.pop(var, None)
+            self.sub = (var, "Statistics")
+            try:
+                inner = []
+                k, tk = self.expr(e.key, env2, inner)
+                v, tv = self.expr(e.value, env2, inner)
+            finally:
+                self.sub = None
+            if tk != "name":
+                refuse(e, "key of type %s" % tk)
+            x = self.temp()
+            binds.append((x, "for_items (fun %s acc => %s) []" % (cn(kn), self.wrap(inner, "ret (dict_set %s %s acc)" % (k, v)))))
+            return x, "dict"
         it, et = self.iterable(g.iter, env, binds)
         if not et.startswith("pair name "):
             refuse(e, "dict comprehension over %s" % et)
